@@ -14,6 +14,7 @@
  * --opt depth=N      commands before the checkpoint-bearing event
  * --opt mode=hist|many   many = the 17-user configuration (the "dump everybody" path)
  */
+#include <ctype.h>
 #include "vdrv.h"
 #include "hx.h"
 #include <sys/prctl.h>
@@ -1244,6 +1245,140 @@ many_users(int nusers, int cancel_last)
 	VT->traces++;
 }
 
+/* one user with K tasks under K distinct UIDs (the UID table has to overflow into its further levels), final
+ * checkpoint, restart: every UID must be back under its own name */
+static void
+many_tasks(int K)
+{
+	static struct rs_task_s rs[HX_MAXTASKS];
+	char req[2048], why[200];
+	struct hx_reply_s rp;
+	static char seen[HX_MAXTASKS];
+	int n;
+
+	snprintf(hist, sizeof(hist), "user 1000 adds %d tasks job-0..job-%d, final checkpoint, restart", K, K - 1);
+	vd_desc("%s", hist);
+	for (int i = 0; i < K; i++) {
+		size_t o = (size_t)snprintf(req, sizeof(req), "BEGIN:VCALENDAR\nVERSION:2.0\nMETHOD:PUBLISH\nBEGIN:VEVENT\nUID:job-%d\nSUMMARY:job\nDTSTART:20300101T000020Z\nEND:VEVENT\nEND:VCALENDAR\n", i);
+		hx_request(&rp, 1000, req, o);
+		VT->transitions++;
+		if (rp.nsucc != 1) {
+			report("reply", "ADD/refused", "task job-%d was refused", i);
+			return;
+		}
+	}
+	chkpnt();
+	VT->transitions++;
+	n = rs_reload(hx_files, rs);
+	VT->reloads++;
+	if (n < 0) {
+		report("reload-died", "many-tasks", "restart on the spool with %d tasks dies", K);
+		return;
+	}
+	memset(seen, 0, sizeof(seen));
+	for (int j = 0; j < n; j++) {
+		int id = -1;
+		if (sscanf(rs[j].uid, "job-%d", &id) != 1 || id < 0 || id >= K || seen[id]) {
+			report("reload-alien", "many-tasks", "restart schedules %s, which nobody submitted (or twice)", rs[j].uid);
+			return;
+		}
+		seen[id] = 1;
+		if (rs[j].owner != 1000u) {
+			report("reload-alien", "many-tasks", "restart schedules %s for owner %u", rs[j].uid, rs[j].owner);
+			return;
+		}
+	}
+	if (n != K) {
+		snprintf(why, sizeof(why), "%d of %d tasks scheduled after restart", n, K);
+		report("reload-set", "many-tasks/missing", "%s", why);
+		return;
+	}
+	VT->traces++;
+}
+
+/* text fields that carry iCalendar escapes: whatever the reader makes of them, the file the checkpoint writes must
+ * stay one calendar of well-formed content lines, and a restart must schedule the accepted UIDs and no other */
+static void
+hostile_text(int which)
+{
+	static const char *const txt[] = {
+		"SUMMARY:echo a\\nEND:VEVENT\\nBEGIN:VEVENT\\nUID:ghost\\nSUMMARY:x\\nDTSTART:20300101T000030Z",
+		"SUMMARY:echo a\\, b\\; c\\\\ d\\N e",
+		"SUMMARY:job\nLOCATION:/tmp/a\\nEND:VEVENT\\nEND:VCALENDAR\\nBEGIN:VCALENDAR\\nBEGIN:VEVENT\\nUID:ghost\\nSUMMARY:x\\nDTSTART:20300101T000030Z",
+		"SUMMARY:job\nDESCRIPTION:line one\\nX-ECHS-SETUID:0\\nline three",
+		"SUMMARY:job\nX-ECHS-OFILE:/tmp/out\\nX-ECHS-OWNER:0",
+		"SUMMARY:job\nX-ECHS-SHELL:/bin/sh\\nX-ECHS-MAX-SIMUL:1\\nEND:VEVENT",
+	};
+	static struct rs_task_s rs[HX_MAXTASKS];
+	char req[2048];
+	struct hx_reply_s rp;
+	int n;
+	size_t o = (size_t)snprintf(req, sizeof(req), "BEGIN:VCALENDAR\nVERSION:2.0\nMETHOD:PUBLISH\nBEGIN:VEVENT\nUID:H\n%s\nDTSTART:20300101T000020Z\nEND:VEVENT\n"
+		"BEGIN:VEVENT\nUID:P\nSUMMARY:plain\nDTSTART:20300101T000025Z\nEND:VEVENT\nEND:VCALENDAR\n", txt[which]);
+
+	snprintf(hist, sizeof(hist), "user 1000 adds task H with the lines [%s] and a plain task P, final checkpoint, restart", txt[which]);
+	for (char *q = hist; *q; q++) if (*q == '\n') *q = '|';
+	vd_desc("%s", hist);
+	hx_request(&rp, 1000, req, o);
+	VT->transitions++;
+	if (rp.nsucc + rp.nfail != 2) {
+		report("reply", "hostile-text/count", "%d replies to 2 instructions", rp.nsucc + rp.nfail);
+		return;
+	}
+	chkpnt();
+	VT->transitions++;
+	for (int i = 0; i < HX_NFILES; i++) {
+		if (hx_files[i].live && !strncmp(hx_files[i].name, "echsq_", 6)) {
+			/* every line between BEGIN:VCALENDAR and END:VCALENDAR is NAME[;param]:value or a continuation */
+			const char *p = hx_files[i].data, *ep = p + hx_files[i].len;
+			if (!hx_complete_ical(hx_files[i].data, hx_files[i].len)) {
+				report("torn-live", "hostile-text/completed", "live file %s is not a complete calendar", hx_files[i].name);
+				return;
+			}
+			while (p < ep) {
+				const char *eol = memchr(p, '\n', (size_t)(ep - p));
+				size_t len = eol ? (size_t)(eol - p) : (size_t)(ep - p);
+				size_t k = 0;
+				if (len && p[len - 1] == '\r') len--;
+				if (len && p[0] != ' ' && p[0] != '\t') {
+					for (; k < len && (isalnum((unsigned char)p[k]) || p[k] == '-'); k++);
+					if (k == 0 || k >= len || (p[k] != ':' && p[k] != ';')) {
+						report("torn-live", "hostile-text/content-line", "live file %s holds a line that is no content line: %.*s", hx_files[i].name, (int)(len < 60 ? len : 60), p);
+						return;
+					}
+				}
+				p = eol ? eol + 1 : ep;
+			}
+		}
+	}
+	n = rs_reload(hx_files, rs);
+	VT->reloads++;
+	if (n < 0) {
+		report("reload-died", "hostile-text", "restart on the spool dies");
+		return;
+	}
+	{
+		int haveh = 0, havep = 0;
+		for (int j = 0; j < n; j++) {
+			if (!strcmp(rs[j].uid, "H")) haveh++;
+			else if (!strcmp(rs[j].uid, "P")) havep++;
+			else {
+				report("reload-alien", "hostile-text", "restart schedules %s, which nobody submitted", rs[j].uid);
+				return;
+			}
+			if (rs[j].owner != 1000u) {
+				report("reload-alien", "hostile-text/owner", "restart schedules %s for owner %u", rs[j].uid, rs[j].owner);
+				return;
+			}
+		}
+		if (havep != 1 || haveh != (rp.nsucc == 2)) {
+			report("reload-set", "hostile-text/missing", "accepted: %d of H and P; after restart H x%d, P x%d", rp.nsucc, haveh, havep);
+			return;
+		}
+	}
+	VT->traces++;
+}
+
 /* the "dump everybody" path under faults: 3 users with one task each checkpointed (old), then 18 acknowledged
  * requests (6 more tasks per user, interleaved) fill the change notes, and the checkpoint that follows writes all
  * users' files side by side, hopping between their descriptors.  Every spool call of that checkpoint fails once
@@ -1566,6 +1701,31 @@ enumerate(void)
 				vd_nontrivial();
 				vd_sample("%d users (2000..) add one task each%s, final checkpoint, restart", n, cl ? ", user 2000 cancels" : "");
 			}
+		}
+		for (int q = 0; q < 4 + 6; q++) {
+			static const int kk[] = {150, 200, 257, 290};
+			if (!vd_next()) continue;
+			vd_shape(q < 4 ? "many-tasks/%d" : "hostile-text/%d", q < 4 ? kk[q] : q - 4);
+			memset(VT, 0, sizeof(*VT));
+			fflush(stdout);
+			pid_t c = fork();
+			if (c == 0) {
+				prctl(PR_SET_PDEATHSIG, SIGKILL);
+				if (q < 4) many_tasks(kk[q]); else hostile_text(q - 4);
+				fflush(stdout);
+				_exit(0);
+			}
+			int st;
+			while (waitpid(c, &st, 0) < 0 && errno == EINTR);
+			if (!(WIFEXITED(st) && WEXITSTATUS(st) == 0)) {
+				vd_viol(q < 4 ? "crash/many-tasks" : "crash/hostile-text", "daemon image died (status %#x)", st);
+			}
+			vd_count("states", 1 + VT->transitions);
+			vd_count("transitions", VT->transitions);
+			vd_count("traces", VT->traces);
+			vd_count("reloads", VT->reloads);
+			vd_nontrivial();
+			if (q < 4) vd_sample("one user, %d tasks, final checkpoint, restart", kk[q]); else vd_sample("escapes in text fields, variant %d", q - 4);
 		}
 		return;
 	}
